@@ -45,6 +45,8 @@ def items(tier):
             for n in ((2,) if q else (2, 3)):
                 out.append(dict(kind="sparse", id="sparse-n%d-%s-%s" % (n, "gen" if gen else "std", sig), n=n, gen=gen,
                                 sigma=sig, nmodes=2))
+    # a complex-conjugate pair with a user sorting function that orders by the imaginary part
+    out.append(dict(kind="dense_cpair", id="dense-n2-std-complexpair-sortimag", n=2))
     # complex Hermitian sparse pencils in both storage formats (the operator handed to ARPACK must invert A - sigma B itself)
     for fmt in ("csc", "csr"):
         out.append(dict(kind="sparse", id="sparse-n2-std-herm-%s-zero" % fmt, n=2, gen=False, sigma="zero", nmodes=2, herm=True, fmt=fmt))
@@ -309,7 +311,54 @@ def sc_sparse(V, P, cfg):
     return obs
 
 
-SCEN = dict(dense=sc_dense, sparse=sc_sparse)
+def _cpair_sort(W, Q):
+    """User sorting function that looks at more than the real part: ascending imaginary part (LAPACK's dgeev hands back a
+    conjugate pair with the positive imaginary part first, so the module really has to reorder)."""
+    return np.argsort(np.imag(W))
+
+
+def sc_dense_cpair(V, P, cfg):
+    """A real non-normal 2x2 matrix with the complex-conjugate pair a +- ib, A = [[a, -b c], [b / c, a]] (b > 0, c > 1),
+    eigenvectors (c, -+i); LAPACK = oracle returning the pair in dgeev's order (a + ib, a - ib); a user sorting function that
+    orders by ascending imaginary part.  Clauses: genuine pairs, bilinear normalisation, order by the sorting function."""
+    import pymoto as pym
+    a = V.real("a", default=0.5)
+    b = V.real("b", positive=True, default=1.25)
+    c = V.real("c", positive=True, default=2.0)
+    if V.symbolic:
+        V.assume(c > 1, "c > 1 (q^T q = c^2 - 1 > 0: the bilinear normalisation is defined)")
+    A = np.array([[a, -b * c], [b / c, a]], dtype=object if V.symbolic else float)
+    if V.symbolic:
+        A = wrap(A)
+    else:
+        A = np.asfortranarray(A)
+    m = pym.EigenSolve([pym.Signal("A", A)], sorting_func=_cpair_sort)
+    if V.symbolic:
+        from symx import factor
+        I_ = C(R.of(0), R.of(1))
+        W = wrap(np.array([C(a, b), C(a, -b)], dtype=object))
+        Q = wrap(np.array([[C(c, R.of(0)), C(c, R.of(0))], [-I_, I_]], dtype=object))
+        factor.register("eig", (W, Q, np.array(np.asarray(A), dtype=object, copy=True), None))
+    A_before = np.array(np.asarray(A), copy=True)
+    m.response()
+    Wo, Qo = np.asarray(m.sig_out[0].state), np.asarray(m.sig_out[1].state)
+    obs = dict(n_out=int(np.size(Wo)))
+    from .common import NumProver
+    Pn = P if P is not None else NumProver(rtol=1e-7)
+    Pn.holds("complete-spectrum", Wo.shape == (2,) and Qo.shape == (2, 2), kind="shape")
+    if Wo.shape == (2,) and Qo.shape == (2, 2):
+        for i in range(2):
+            Pn.arrays_eq("pair[%d]:A q == lambda q" % i, A_before @ Qo[:, i], Wo[i] * Qo[:, i], kind="genuine-eigenpair")
+            Pn.eq("norm[%d]:q^T q == 1" % i, Qo[:, i] @ Qo[:, i], 1, kind="normalisation")
+        im = [(w.im if isinstance(w, C) else (R.of(0) if isinstance(w, R) else float(np.imag(w)))) for w in Wo]
+        Pn.holds("order[0]:by-the-sorting-function (ascending imaginary part)", im[0] <= im[1], kind="ordering")
+        Pn.holds("both-eigenvalues-returned", im[1] > 0, kind="ordering")
+    if P is None:
+        obs["_num"] = Pn
+    return obs
+
+
+SCEN = dict(dense=sc_dense, sparse=sc_sparse, dense_cpair=sc_dense_cpair)
 
 
 def run_item(cfg, tier):
@@ -325,6 +374,9 @@ def replay(cfg, label, env, case):
     import pymoto as pym
     V = Vals(env=env)
     n = cfg["n"]
+    if cfg["kind"] == "dense_cpair":
+        obs = sc_dense_cpair(V, None, cfg)
+        return obs["_num"].verdict(label)
     try:
         if cfg["kind"] == "dense":
             symm, gen = cfg["prob"].endswith("sym"), cfg["prob"].startswith("gen")
